@@ -73,6 +73,16 @@ def _gen_stream(rng, tier, variant):
         yield {'def': d, 'pkts': pk, 'opts': {'parse_bad_pkts': rng.choice([True, False]),
                                               'yield_unrecognized_packet_errors': rng.choice([True, False]),
                                               'ccsds_headers_only': rng.random() < 0.15}}
+    # (a2) one APID whose packets are recognizable, unrecognizable (TYPE bit) or ambiguous (flag bit) in turn: an earlier
+    # packet of an APID never decides how a later one is treated
+    for _ in range(60 if tier == 'quick' else 600):
+        d = gen_definition(rng, styles=rng.choice([['eq+type', 'eq'], ['eq0', 'flag'], ['eq+type', 'flag'], ['eq0', 'flag', 'eq']]))
+        defn = build_definition(d)
+        a = d['apids'][0]
+        pk = [(exact_packet(rng, d, defn, apid=a) if rng.random() < 0.6 else gen_packet(rng, d, apid=a)).hex()
+              for _ in range(rng.randint(2, 6))]
+        yield {'def': d, 'pkts': pk, 'opts': {'parse_bad_pkts': rng.choice([True, False]),
+                                              'yield_unrecognized_packet_errors': rng.choice([True, False, False])}}
     # (b) segmentation histories on a header-only definition (so that the combined raw bytes are what is compared)
     d0 = {'ptypes': [], 'params': [], 'containers': [], 'root': 'CCSDSPacket', 'apids': [5, 9], 'apid_name': 'PKT_APID'}
     dh = gen_definition(rng, rich=False)
@@ -91,12 +101,23 @@ def _gen_stream(rng, tier, variant):
                 cnt[a] += 1
             yield {'def': dh, 'pkts': pk, 'opts': {'combine_segmented_packets': True,
                                                    'secondary_header_bytes': rng.choice([0, 2])}}
-    for counts in ([10, 12, 11, 13], [5, 5, 7], [16382, 0, 16383, 1], [3, 4, 6], [3, 5, 4], [7, 8, 9], [16383, 0, 1]):
+    for counts in ([10, 12, 11, 13], [5, 5, 7], [16382, 0, 16383, 1], [3, 4, 6], [3, 5, 4], [7, 8, 9], [16383, 0, 1],
+                   [16383, 5], [16383, 1], [16382, 16383, 1], [16383, 0], [16383, 16383], [0, 1], [0, 0], [16382, 16383, 0, 1]):
         for apid in (5, 9):
             flags = [1] + [0] * (len(counts) - 2) + [2]
             pk = [gen_packet(rng, dh, body_len=rng.randint(3, 5), apid=apid, seqflags=f, seqcount=c).hex()
                   for f, c in zip(flags, counts)]
             yield {'def': dh, 'pkts': pk, 'opts': {'combine_segmented_packets': True, 'secondary_header_bytes': rng.choice([0, 2])}}
+    # later segments whose data field is exactly the secondary header (they contribute no bytes), or one byte more
+    for sec in (1, 2, 3):
+        for extra in ((0, 0), (0, 1), (1, 0), (2, 2)):
+            for start in (7, 16382):
+                lens = [sec + 2, sec + extra[0], sec + extra[1]]
+                if min(lens) < 1:
+                    continue
+                pk = [gen_packet(rng, dh, body_len=bl, apid=5, seqflags=f, seqcount=(start + i) % 16384).hex()
+                      for i, (f, bl) in enumerate(zip((1, 0, 2), lens))]
+                yield {'def': dh, 'pkts': pk, 'opts': {'combine_segmented_packets': True, 'secondary_header_bytes': sec}}
     for _ in range(150 if tier == 'quick' else 3000):
         ln = rng.randint(3, 9)
         cnt = {5: rng.choice([0, 16380]), 9: 3}
